@@ -115,13 +115,8 @@ func roundTripCase(r *report, w *world, c *fileCase, idx int, claimDomain bool) 
 		r.corrFail("domain", "the generator's in-domain File is outside in_domain of Spec/RoundTrip.v", rep)
 	}
 	if m["dom"] == "1" {
+		// wf_file and in_domain: inside the domain of the stream theorem C06_roundtrip (no further side condition)
 		r.hist("in_domain")
-		// inside the domain of the stream theorem C06_roundtrip, or on one of the decoder's time-rule paths (C12)
-		if m["ntq"] == "1" {
-			r.hist("in_domain_theorem_covers")
-		} else {
-			r.hist("in_domain_time_quirk_path")
-		}
 	} else {
 		r.hist("outside_domain")
 	}
